@@ -355,8 +355,18 @@ def r04_6(ctx):
                    '`marked` is rebound to a new dict before marks are added')
     cn = ctx.prog.func(H + '.HSpace._cell_neighborhood')
     first = cn.node.body[0]
-    ok = isinstance(first, ast.If) and src(first.test).replace(' ', '') == 'l-self.disparity<0' and src(first.body[0]) == 'return set()'
-    ctx.decide('R04.6', cn.qual, 'if l - self.disparity < 0: return set()', ok, first, 'recursion stops below level 0')
+    # semantic: the guard must be equivalent to  l - disparity <= -1  (affine comparison)
+    ok = None
+    if isinstance(first, ast.If) and isinstance(first.test, ast.Compare) and src(first.body[0]) == 'return set()':
+        from sa import affine
+        cs = affine.compare_to_constraints(first.test)
+        if cs is not None and len(cs) == 1:
+            want = affine.Lin({'self.disparity': 1, 'l': -1}, -1)       # disparity - l - 1 >= 0
+            got = cs[0]
+            if got.symbols() <= {'self.disparity', 'l'}:
+                ok = (got == want)
+    ctx.decide('R04.6', cn.qual, 'if %s: return set()' % (src(first.test) if isinstance(first, ast.If) else '?'), ok, first,
+               'recursion stops exactly below level 0: guard equivalent to l - disparity < 0', definite=True)
     mr = ctx.prog.func(H + '.HSpace._mark_recursive')
     rec = [c for c in ast.walk(mr.node) if isinstance(c, ast.Call) and src(c.func) == 'self._mark_recursive']
     ok = bool(rec) and src(rec[0].args[0]).replace(' ', '') == 'l-self.disparity' and guards.has_literal(guards.path_conditions(rec[0]), 'neighbors', True)
